@@ -649,6 +649,18 @@ def duringStates (now : Nat) (r : Rel) (q : WReqE) : List RelT :=
   let ls := (okPrefix q.recs).1
   (List.range (ls.length + 1)).map (fun k => runEffs now ⟨r, none⟩ (.mkTemp :: (ls.take k).map .tmpWrite))
 
+/-- how often the caller's iterable is asked for a record: never for a refused request, else once per
+staged record plus the pull that fails or finds it exhausted -/
+def pullCount (r : Rel) (q : WReqE) : Nat :=
+  if q.append && (q.gzip || r.useGz) then 0 else (okPrefix q.recs).1.length + 1
+
+/-- the call without its intermediate states (linear in the size of the request): the state after it
+and its exception.  `effects_digest` (FsProps.lean) shows it is what running the effects gives. -/
+def writeDigest (now : Nat) (r : Rel) (q : WReqE) : Rel × Option Err :=
+  match write now r q.toWReq with
+  | .ok r' => (r', none)
+  | .error e => (r, some e)
+
 /-! ### `write_database` under an encoding; `initialize_database` -/
 
 /-- body of the `for name in names` loop with `encoding=enc` handed down to `write` -/
@@ -688,5 +700,88 @@ def initFiles (now : Nat) (files : Bool) (names : List Name) (dst : Files) : Fil
 
 def initDbDir (now : Nat) (files : Bool) (tss : SSchema) (dst : DbDir) : DbDir :=
   { relations := some (writeSchema tss), files := initFiles now files (tss.map (·.1)) dst.files }
+
+/-! ### the directory at the level of file NAMES: `_cleanup_files`
+
+`Files` above is keyed by relation name, so "cleaning `item` must not delete `item-set`" cannot even
+be said there.  Here a directory maps file names to files; a relation `n` owns the names `n` and
+`n ++ ".gz"` (`Path(path, n).with_suffix('')` / `.with_suffix('.gz')` for dot-free `n`). -/
+
+abbrev FName := List Char
+abbrev Dir := FName → Option File
+
+def gzSuffix : List Char := ['.', 'g', 'z']
+
+def dotFree (n : Name) : Bool := n.all (fun c => c != '.')
+
+/-- `_cleanup_files(path, names)`: for every name both files are unlinked if they are files -/
+def cleanupDir (d : Dir) (names : List Name) : Dir :=
+  fun fn => if names.any (fun n => decide (fn = n) || decide (fn = n ++ gzSuffix)) then none else d fn
+
+/-- the two physical files of relation `n` in a directory -/
+def Dir.rel (d : Dir) (n : Name) : Rel := { tx := d n, gz := d (n ++ gzSuffix) }
+
+/-- the directory holding the relation files `fs` (relation names dot-free) and nothing else -/
+def Dir.ofFiles (fs : Files) : Dir := fun fn =>
+  let base := fn.takeWhile (fun c => c != '.')
+  let ext := fn.dropWhile (fun c => c != '.')
+  if ext.isEmpty then (fs base).tx else if ext = gzSuffix then (fs base).gz else none
+
+/-- `write_database` with its final `_cleanup_files` done on file names: the loop as before, then the
+directory of the loop's result is cleaned, and the relations are read off the cleaned directory -/
+def writeDbFiles (enc : Enc) (now : Nat) (q : DbReq) (src dst : Files) : (Name → Rel) × Option Err :=
+  match writeLoopE enc q src now dst q.nameList with
+  | (d, some e) => (d, some e)
+  | (d, none) =>
+    ((cleanupDir (Dir.ofFiles d) ((q.target.map (·.1)).filter (fun n => !(q.nameList.contains n)))).rel, none)
+
+/-! ### histories of operations on one database directory -/
+
+inductive DbOp where
+  | write (n : Name) (q : WReq)                              -- `tsdb.write(dir, n, …)`
+  | writeDbInPlace (enc : Enc) (q : DbReq)                   -- `write_database(db, db.path, …)`
+  | writeDbFrom (enc : Enc) (q : DbReq) (src : Files)        -- another database written onto this directory
+  | init (files : Bool) (names : List Name)                  -- `initialize_database(dir, schema, files)`
+
+/-- what the directory holds after the operation, whether it raised or not -/
+def dbStep (now : Nat) (fs : Files) : DbOp → Files
+  | .write n q => fs.set n (step now (fs n) q)
+  | .writeDbInPlace enc q => (writeDbE enc now { q with inPlace := true } fs fs).1
+  | .writeDbFrom enc q src => (writeDbE enc now { q with inPlace := false } src fs).1
+  | .init files names => initFiles now files names fs
+
+def dbRun (now : Nat) (fs : Files) : List DbOp → Files
+  | [] => fs
+  | op :: ops => dbRun (now + 1) (dbStep now fs op) ops
+
+/-! ### crash points: the directory after every prefix of the effects -/
+
+/-- the relation files after each prefix of the effects of one `write` (first = before, last = after) -/
+def relCrash (now : Nat) (r : Rel) (q : WReqE) : List Rel :=
+  (List.range ((effects r q).1.length + 1)).map (fun k => (runEffs now ⟨r, none⟩ ((effects r q).1.take k)).rel)
+
+/-- the request `write_database` hands to `write` for one relation, record by record (a source that
+cannot be read or remade fails at the first pull); `none`: the name is not in the target schema
+(`KeyError` before any effect) -/
+def dbReqE (enc : Enc) (q : DbReq) (src dst : Files) (name : Name) : Option WReqE :=
+  match q.target.lookup name with
+  | none => none
+  | some fields =>
+    let from_ := if q.inPlace then dst else src
+    some { append := false, gzip := q.gzip,
+           recs := match sourceVals q fields from_ name with
+             | .ok vals => vals.map (encodeRec enc fields)
+             | .error e => [.error e] }
+
+/-- every state the destination directory goes through during the loop of `write_database` -/
+def loopCrash (enc : Enc) (q : DbReq) (src : Files) : Nat → Files → List Name → List Files
+  | _, dst, [] => [dst]
+  | now, dst, n :: ns =>
+    (match dbReqE enc q src dst n with
+      | some qe => (relCrash now (dst n) qe).map (fun r => dst.set n r)
+      | none => [dst]) ++
+    match writeOneE enc now q src dst n with
+    | .ok dst' => loopCrash enc q src (now + 1) dst' ns
+    | .error _ => []
 
 end Verif.C09
